@@ -819,7 +819,17 @@ class S3Transfer:
             self._osutil.remove_file(temp_filename)
             raise
         else:
-            self._osutil.rename_file(temp_filename, filename)
+            try:
+                self._osutil.rename_file(temp_filename, filename)
+            except Exception:
+                logger.debug(
+                    "Exception caught in download_file while renaming, "
+                    "removing temporary file: %s",
+                    temp_filename,
+                    exc_info=True,
+                )
+                self._osutil.remove_file(temp_filename)
+                raise
 
     def _download_file(
         self, bucket, key, filename, object_size, extra_args, callback
